@@ -104,7 +104,54 @@ def observe(fn, *args, **kwargs):
         return ("exc", sig, "%s: %s" % (type(exc).__name__, str(exc)[:300]))
 
 
+class CaseTimeout(BaseException):
+    """Raised by the per-case watchdog (BaseException: library code that catches Exception must not swallow it)."""
+
+
+# One case of any family takes well under a minute on the unchanged tree (the slowest: a 100 000-atom table of C10, ~20 s). A case that has not
+# answered after CASE_LIMIT seconds is not going to: the library call does not terminate in any useful sense (e.g. an enumeration that exploded). It is
+# reported as a violation of that case - every property presupposes that the call returns - instead of hanging the whole check.
+CASE_LIMIT = int(os.environ.get("VERIF_CASE_LIMIT", "0")) or None
+CASE_LIMITS = dict(quick=240, thorough=900)
+_tier_for_limit = ["quick"]
+_timeouts = [0]
+
+
+def _on_alarm(signum, frame):
+    raise CaseTimeout()
+
+
 def safe_run_case(mod, case):
+    import signal
+
+    limit = CASE_LIMIT or CASE_LIMITS.get(_tier_for_limit[0], 240)
+    if _timeouts[0]:
+        limit = min(limit, 30)  # this process has already met a case that never answered: the remaining ones get half a minute each
+    old = signal.signal(signal.SIGALRM, _on_alarm)
+    signal.alarm(limit)
+    try:
+        return _safe_run_case(mod, case)
+    except CaseTimeout:
+        _timeouts[0] += 1
+        return dict(
+            nontrivial=True,
+            outcome="no-answer",
+            violations=[
+                dict(
+                    signature="no-answer-within-%ds" % limit,
+                    message="the library did not answer this case within %d s (every case of this family takes seconds at most on the unchanged tree)" % limit,
+                    observed="still running after %d s" % limit,
+                    expected="the call returns",
+                    no_confirm=True,
+                )
+            ],
+        )
+    finally:
+        signal.alarm(0)
+        signal.signal(signal.SIGALRM, old)
+
+
+def _safe_run_case(mod, case):
     try:
         res = mod.run_case(case)
     except Exception as exc:  # noqa
@@ -170,6 +217,7 @@ def _cover_start():
 
 def _worker(args):
     wid, nw, pid, tier, seed = args
+    _tier_for_limit[0] = tier
     if _COVER:
         _cover_start()
     mod = load_module(pid)
